@@ -237,6 +237,8 @@ def run(ctx):
         rand.add(mutate(gen_version(rng), rng))
     rand = sorted(rand)
     edges = numeric_edges()
+    valid0 = [s for s in rand if ref.parse(s, allow_v=False) is not None][:300]
+    edges += [pre + s for s in valid0 for pre in ("v", "vv", "V", "vV", "v v")]
     lists = core.split_even(rand, 16) + [edges]
     res2 = core.pmap(work_list, [(ctx.bins, l) for l in lists])
     for r in res2:
@@ -252,6 +254,11 @@ def run(ctx):
     sample = [s for s in rand if ref.parse(s, allow_v=True) is not None][: (3000 if quick else 40000)]
     sample += rng.sample(rand, min(len(rand), 3000 if quick else 30000)) + edges
     sample += ["".join(t) for t in itertools.product(["1", "0", ".", "-", "a", "v", "+"], repeat=5)]
+    # prefixes in front of valid versions: exactly one lower-case `v` is optional, nothing else is
+    valid = [s for s in rand if ref.parse(s, allow_v=False) is not None][:400]
+    for pre in ("v", "vv", "vvv", "V", "v ", " v", "v-", "version", "v.", "=", "v\t"):
+        sample += [pre + s for s in valid[:120]]
+    sample += [s + suf for s in valid[:120] for suf in ("\n", " ", "v", ".", "+", "-")]
     res3 = core.pmap(work_check_cli, [(ctx.bins, l) for l in core.split_even(sample, 32)])
     for r in res3:
         ctx.evaluations += r["n"]
